@@ -15,7 +15,7 @@ reg("C01", "kriging output = solution of the documented (co)kriging system",
                                      "c00": 9000, "lc-estim": 1800, "krigtest": 1800},
                               thorough={"weights": 72000, "estim": 160000, "stdev2": 144000, "varz": 96000, "rhs": 72000,
                                         "dual": 40000, "c00": 72000, "lc-estim": 14000, "krigtest": 14000}),
-                 probes=["h.hetero", "h.verr", "h.block", "h.extdrift", "h.matLC"]),
+                 probes=["h.hetero", "h.verr", "h.block", "h.extdrift", "h.matLC", "h.matLC-sk"]),
     assumptions=["the model's pointwise covariance function Model::eval(p1,p2,ivar,jvar) is taken as given (C03 checks it)",
                  "the neighbourhood selection is taken as given (C06 checks it)",
                  "grid node coordinates are read back from the DbGrid (C16 checks them)",
